@@ -58,7 +58,35 @@ Ref == [
   vacuum_impedance              |-> Row(Dim(2, 1, -3, -2, 0, 0, 0), 376730314, 2, 8),      \* 376.730313668(57) / ...412(59)
   \* public, defined by the module, not in __all__
   gravitational_constant        |-> Row(Dim(3, -1, -2, 0, 0, 0, 0), 667430000, -11, 5),    \* 6.67430(15)e-11
-  sun_luminosity                |-> Row(Power,                    382800000, 26, 3)        \* IAU nominal 3.828e26
+  sun_luminosity                |-> Row(Power,                    382800000, 26, 3),       \* IAU nominal 3.828e26
+  \* not (yet) exported by the library: further CODATA / SI / IAU constants, so that a constant added to the
+  \* catalogue under its usual name is decided.  An exported constant WITHOUT a row here cannot be certified and is
+  \* reported (harness/c20.py: "exported constant without a reference value").
+  proton_rest_mass              |-> Row(Dim(0, 1, 0, 0, 0, 0, 0), 167262192, -27, 8),      \* 1.67262192369(51)e-27 / ...595(52)
+  proton_mass                   |-> Row(Dim(0, 1, 0, 0, 0, 0, 0), 167262192, -27, 8),
+  neutron_rest_mass             |-> Row(Dim(0, 1, 0, 0, 0, 0, 0), 167492750, -27, 8),      \* 1.67492749804(95)e-27 / ...750056(85)
+  neutron_mass                  |-> Row(Dim(0, 1, 0, 0, 0, 0, 0), 167492750, -27, 8),
+  electron_mass                 |-> Row(Dim(0, 1, 0, 0, 0, 0, 0), 910938370, -31, 8),
+  atomic_mass_constant          |-> Row(Dim(0, 1, 0, 0, 0, 0, 0), 166053907, -27, 8),      \* 1.66053906660(50)e-27 / ...892(52)
+  atomic_mass_unit              |-> Row(Dim(0, 1, 0, 0, 0, 0, 0), 166053907, -27, 8),
+  fine_structure_constant       |-> Row(Dim(0, 0, 0, 0, 0, 0, 0), 729735257, -3, 8),       \* 7.2973525693(11)e-3 / ...643(11)
+  rydberg_constant              |-> Row(Dim(-1, 0, 0, 0, 0, 0, 0), 109737316, 7, 9),       \* 10973731.568160(21) m^-1
+  bohr_magneton                 |-> Row(Dim(2, 0, 0, 1, 0, 0, 0), 927401008, -24, 8),      \* 9.2740100783(28)e-24 J/T / ...657(29)
+  nuclear_magneton              |-> Row(Dim(2, 0, 0, 1, 0, 0, 0), 505078375, -27, 8),      \* 5.0507837461(15)e-27 / ...393(16)
+  classical_electron_radius     |-> Row(Dim(1, 0, 0, 0, 0, 0, 0), 281794033, -15, 8),      \* 2.8179403262(13)e-15 / ...205(13)
+  compton_wavelength            |-> Row(Dim(1, 0, 0, 0, 0, 0, 0), 242631024, -12, 8),      \* 2.42631023867(73)e-12 / ...538(76)
+  josephson_constant            |-> Row(Dim(-2, -1, 2, 1, 0, 0, 0), 483597848, 14, 9),     \* 2e/h = 483597.8484...e9 Hz/V exact
+  von_klitzing_constant         |-> Row(Dim(2, 1, -3, -2, 0, 0, 0), 258128075, 4, 9),      \* h/e^2 = 25812.80745... ohm exact
+  magnetic_flux_quantum         |-> Row(Dim(2, 1, -2, -1, 0, 0, 0), 206783385, -15, 9),    \* h/2e = 2.067833848...e-15 Wb exact
+  conductance_quantum           |-> Row(Dim(-2, -1, 3, 2, 0, 0, 0), 774809173, -5, 9),     \* 2e^2/h = 7.748091729...e-5 S exact
+  electronvolt                  |-> Row(Energy,                   160217663, -19, 9),      \* exact
+  electron_volt                 |-> Row(Energy,                   160217663, -19, 9),
+  astronomical_unit             |-> Row(Dim(1, 0, 0, 0, 0, 0, 0), 149597871, 11, 9),       \* 149597870700 m exact (IAU 2012)
+  parsec                        |-> Row(Dim(1, 0, 0, 0, 0, 0, 0), 308567758, 16, 9),       \* 648000/pi au
+  light_year                    |-> Row(Dim(1, 0, 0, 0, 0, 0, 0), 946073047, 15, 9),       \* 9460730472580800 m exact
+  standard_atmosphere           |-> Row(Dim(-1, 1, -2, 0, 0, 0, 0), 101325000, 5, 9),      \* exact
+  solar_radius                  |-> Row(Dim(1, 0, 0, 0, 0, 0, 0), 695700000, 8, 4),        \* IAU nominal 6.957e8
+  sun_radius                    |-> Row(Dim(1, 0, 0, 0, 0, 0, 0), 695700000, 8, 4)
 ]
 
 Names == DOMAIN Ref
@@ -73,7 +101,11 @@ Wien == [m |-> 496511423, e |-> 0]          \* x = 4.965114231..., root of x = 5
 
 Mul3(a, b, c) == BMul(BMul(a, b), c)
 
-IdNames == {"R", "F", "hbar", "eps_mu", "Z0", "sigma", "wien"}
+IdNames == {"R", "F", "hbar", "eps_mu", "Z0", "sigma", "wien",
+            "mp_me", "mn_gt_mp"}           \* cross relations among the particle masses (evaluated when exported)
+
+ProtonElectronRatio == [m |-> 183615267, e |-> 3]      \* m_p / m_e = 1836.15267343(11)
+BLess(x, y) == x.e < y.e \/ (x.e = y.e /\ x.m < y.m)
 
 Involved(id) ==
   CASE id = "R"      -> {"molar_gas_constant", "boltzmann_constant", "avogadro_constant"}
@@ -83,6 +115,8 @@ Involved(id) ==
     [] id = "Z0"     -> {"vacuum_impedance", "vacuum_permeability", "speed_of_light"}
     [] id = "sigma"  -> {"stefan_boltzmann_constant", "boltzmann_constant", "planck", "speed_of_light"}
     [] id = "wien"   -> {"wien_displacement_constant", "planck", "speed_of_light", "boltzmann_constant"}
+    [] id = "mp_me"  -> {"proton_rest_mass", "electron_rest_mass"}
+    [] id = "mn_gt_mp" -> {"neutron_rest_mass", "proton_rest_mass"}
 
 \* both sides of identity id over table T
 Lhs(id, T) ==
@@ -94,6 +128,8 @@ Lhs(id, T) ==
     [] id = "sigma"  -> BMul(Mul3(T["stefan_boltzmann_constant"], BInt(15), BPow(T["planck"], 3)),
                              BPow(T["speed_of_light"], 2))                                 \* sigma 15 h^3 c^2 = 2 pi^5 k_B^4
     [] id = "wien"   -> Mul3(T["wien_displacement_constant"], Wien, T["boltzmann_constant"])   \* b x k_B = h c
+    [] id = "mp_me"  -> T["proton_rest_mass"]                                              \* m_p = 1836.15267 m_e
+    [] id = "mn_gt_mp" -> T["proton_rest_mass"]                                            \* m_p < m_n
 Rhs(id, T) ==
   CASE id = "R"      -> BMul(T["boltzmann_constant"], T["avogadro_constant"])
     [] id = "F"      -> BMul(T["elementary_charge"], T["avogadro_constant"])
@@ -102,6 +138,8 @@ Rhs(id, T) ==
     [] id = "Z0"     -> BMul(T["vacuum_permeability"], T["speed_of_light"])
     [] id = "sigma"  -> Mul3(BInt(2), BPow(BPi, 5), BPow(T["boltzmann_constant"], 4))
     [] id = "wien"   -> BMul(T["planck"], T["speed_of_light"])
+    [] id = "mp_me"  -> BMul(T["electron_rest_mass"], ProtonElectronRatio)
+    [] id = "mn_gt_mp" -> T["neutron_rest_mass"]
 
 MinOver(S, K) == CHOOSE k \in {K[n] : n \in S} : \A n \in S : k <= K[n]
 MinI2(a, b) == IF a <= b THEN a ELSE b
@@ -109,7 +147,8 @@ MinI2(a, b) == IF a <= b THEN a ELSE b
 \* an identity is compared to the coarsest precision involved, and to at most 7 digits: a chain of up to ten
 \* nine-digit products accumulates rounding errors of a few units of the 8th digit
 IdPrecision(id, K) == MinI2(7, MinOver(Involved(id), K))
-IdHolds(id, T, K) == BClose(Lhs(id, T), Rhs(id, T), IdPrecision(id, K))
+IdHolds(id, T, K) == IF id = "mn_gt_mp" THEN BLess(Lhs(id, T), Rhs(id, T))        \* an order relation, not an equation
+                     ELSE BClose(Lhs(id, T), Rhs(id, T), IdPrecision(id, K))
 
 -----------------------------------------------------------------------------
 (* Model checking of the reference table itself: a trivial machine that      *)
@@ -132,7 +171,7 @@ TableWellFormed == step <= Len(RowSeq) => RowWellFormed(Ref[RowSeq[step]])
 IdentitiesHoldOnReference ==
   step > Len(RowSeq) => IdHolds(IdSeq[step - Len(RowSeq)], RefNum, RefK)
 BigMantSane == step = 1 => MulExactOn3Digits
-TableSize == Cardinality(Names) = 27 /\ \A id \in IdNames : Involved(id) \subseteq Names
+TableSize == Cardinality(Names) = 52 /\ \A id \in IdNames : Involved(id) \subseteq Names
 ASSUME TableSize
 
 \* the margins, for the evidence: distance of both sides in units of the ninth digit
